@@ -7,9 +7,9 @@ from harness.common import cz, cq, cbool, clist, ctup, copt, import_aa
 ID = "C16"
 GEN = []
 PROPS = "Props/C16.v"
-COQ_CHECK = ("Model.C16", "check")
+COQ_CHECK = ("Model.C16h", "check")
 COQ_FALLBACK = None
-COQ_IMPORTS = ""
+COQ_IMPORTS = "From PAV Require Import Base.NumOps."
 SHARD = 250
 RULE = ("every case writes REAL files below a fresh tempfile.mkdtemp() root (outside /repo and /verif, removed afterwards; the "
         "root is the current directory during the call so that bare file names are exercised) through the public classes "
@@ -18,21 +18,35 @@ RULE = ("every case writes REAL files below a fresh tempfile.mkdtemp() root (out
         "header_obj_from), under both values of general.fits.flip_for_ds9; the directory tree and the raw content of every file "
         "are re-read with astropy after the write and compared with the model's file-system state; contents are non-symmetric "
         "(all cells distinct), pixel scales isotropic and anisotropic, values with negative, tiny (2^-60, 5e-324) and huge (2^70, 1e300) magnitudes, all exactly representable. "
+        "Phase 2: HISTORIES of one object (ops hist2 / hist1 / histm2 / histm1): the object is built once (Array2D / Kernel2D with store_native in {False, True} under "
+        "general.structures.native_binned_only in {false, true}; Array1D with store_native in {False, True}; Mask2D; Mask1D), then python-level steps are applied to it "
+        "(arithmetic with scalars and with a saved array, .native, .slim, .copy(), aliasing, obj[k] = v / obj[y, x] = v in place, toggling flip_for_ds9) and it is OBSERVED any number "
+        "of times (np.array(obj.native), hdu_for_output -> from_primary_hdu, output_to_fits -> from_fits on the tree left by the previous steps); the util functions are called twice with the "
+        "caller's same ndarray and dict. "
         "A case is non-trivial unless the array has a single cell; distinct = distinct JSON input.")
 EXHAUSTIVE = {
     "quick": "all shapes HxW <= 4x4 (incl. 1xN, Nx1) x flip x {Array2D, Kernel2D, Mask2D} x {file, hdu} route; all 1-D lengths 1..6 x flip "
              "x {Array1D, Mask1D} x {file, hdu}; all boolean masks with H*W <= 6 (Mask2D and masked Array2D through the hdu route, every third also through a file); all file-system "
              "scenarios {bare name, 1 dir, 2 dirs} x {directory absent, partly present, present} x {target absent, present} x overwrite "
-             "x flip x {relative, absolute path}; hdu index in [-3..2] on 1- and 2-HDU files and on assembled 1-, 2-, 3-HDU files (2-D and 1-D)",
-    "thorough": "as quick with shapes <= 6x6, masks with H*W <= 9 (sampled above 2^9), 1-D lengths 1..9, plus 10x the random budget",
+             "x flip x {relative, absolute path}; hdu index in [-3..2] on 1- and 2-HDU files and on assembled 1-, 2-, 3-HDU files (2-D and 1-D); "
+             "histories: 17 derivations x {slim, store_native, native_binned_only} x {Array2D, Kernel2D} x flip (one of 5 partially masked shapes each) and x store_native x flip for Array1D, each observed through np.array(.native), the HDU route and the file route; 11-13 re-use templates x storage x 3 shapes (2-D) and x store_native x 3 masks (1-D); 6 Mask2D templates x 6 shapes x flip; 4 Mask1D templates x 3 masks x flip; 130 random histories",
+    "thorough": "as quick with shapes <= 6x6, masks with H*W <= 9 (sampled above 2^9), 1-D lengths 1..9, plus 10x the random budget; histories: every derivation x storage x class x flip "
+                "on all 6 history shapes, every re-use template x storage x shape x flip, 1500 random histories",
+
 }
 TRUSTED = ["astropy FITS codec = identity on (float64 data, PIXSCALE* header cards); HDUList indexing = Python list indexing "
            "(oracle; exercised on every case: the harness re-reads every written file with astropy directly)",
            "file-system model Model.C16.fsys (os.path.split/exists, os.makedirs, os.remove, writeto) -- exercised on real "
            "directories by every file case; targets that are directories / directory parts that are files are outside the model",
            "correspondence harness harness/c16.py (generators, snapshot of the temporary tree, Fraction(float) conversion)",
-           "slim/native scatter of Array2D.native is modelled in its consuming form (C01 proves the scatter form equivalent)"]
-ASSUMPTIONS = ["the model follows the code after the repairs 9d3d532 (Array1D.hdu_for_output does not flip) and 770955c (PIXSCALEY / "
+           "slim/native scatter of Array2D.native is modelled in its consuming form (C01 proves the scatter form equivalent)",
+           "numpy elementwise arithmetic on a buffer = the NumOps operation on each element (python floats as scalars); with_new_array / copy() give value semantics, `other = obj` an alias "
+           "(the model tracks whether the two names denote the same object)"]
+ASSUMPTIONS = ["repair e8113b3 (fixes/C16_native_mask_nan.diff): the model zeroes masked pixels of a native buffer whatever they hold; the code before the repair multiplied by the inverted mask, so a "
+               "history that puts inf / NaN at a masked buffer position (c / arr on a natively stored masked array) was written with NaN there: reported as a violation on a tree without the repair",
+               "histories are generated only if every float operation they cause is exact at unmasked buffer positions (hist_ok); numpy broadcasting between a slim and a native buffer and the row "
+               "assignment obj[k] = v on a 2-D native buffer are outside the model and never generated",
+               "the model follows the code after the repairs 9d3d532 (Array1D.hdu_for_output does not flip) and 770955c (PIXSCALEY / "
                "PIXSCALEX cards for unequal scales; fixes/C16_*.diff): on a tree without them the 1-D hdu route under flip_for_ds9 and "
                "every anisotropic hdu/header case is reported as a violation",
                "header cards hold the pixel scale exactly: astropy formats a float card in 20 characters, so a scale needing more than "
@@ -75,6 +89,27 @@ def cobs2(o): return ctup([carr(o[0]), cbarr(o[1]), csc2(o[2]), chdr(o[3]), chdr
 def cobs1(o): return ctup([crow(o[0]), cbrow(o[1]), cq(fr(o[2])), chdr(o[3]), chdr(o[4])])
 def cobsm2(o): return ctup([cbarr(o[0]), csc2(o[1])])
 def cobsm1(o): return ctup([cbrow(o[0]), cq(fr(o[1]))])
+
+def cnat(n): return f"{int(n)}%nat"
+POPS = {"add": "PAdd", "radd": "PRAdd", "sub": "PSub", "rsub": "PRSub", "mul": "PMul", "rmul": "PRMul", "div": "PDiv", "rdiv": "PRDiv"}
+BOPS = {"add": "BAdd", "sub": "BSub", "rsub": "BRSub", "mul": "BMul"}
+def cstep(s):
+    t = s[0]
+    if t == "op": return "(SOp PNeg)" if s[1] == "neg" else "(SOp PAbs)" if s[1] == "abs" else f"(SOp (@{POPS[s[1]]} QOps {cq(fr(s[2]))}))"
+    if t == "bop": return f"(SBop {BOPS[s[1]]})"
+    if t in ("save", "swap", "native", "slim", "copy", "peek", "hdu"): return "S" + t.capitalize()
+    if t == "set1": return f"(@SSet1 QOps {cnat(s[1])} {cq(fr(s[2]))})"
+    if t == "set2": return f"(@SSet2 QOps {cnat(s[1])} {cnat(s[2])} {cq(fr(s[3]))})"
+    if t == "flip": return f"(SFlip {cbool(s[1])})"
+    if t == "file": return f"(SFile {cpath(s[1])} {cbool(s[2])} {cz(s[3])})"
+    raise ValueError(t)
+def cobsv(o, cdata, cr):
+    t = o[0]
+    if t == "peek": return f"(@OPeek QOps _ _ {cdata(o[1])})"
+    if t == "hdu": return f"(@OHdu QOps _ _ {chdu(o[1], cdata)} {cfres(o[2], cr)})"
+    if t == "file": return f"(@OFile QOps _ _ {coexn(o[1])} {cfs(o[2], cdata)} {cfres(o[3], cr)})"
+    if t == "err": return f"(@OErr QOps _ _ {o[1]})"
+    raise ValueError(t)
 
 # ----------------------------------------------------------------------------- implementation side
 def exn_name(e):
@@ -178,33 +213,56 @@ def run_case(inp):
     aa = import_aa()
     from autoarray.structures.arrays import array_2d_util, array_1d_util
     op = inp["op"]; flip = inp.get("flip", False)
-    finding = None; out = None
+    finding = None; out = None; extra = None
     cells = 2
     if op == "util2":
         arr = inp["arr"]; hd = inp["hd"]; cells = len(arr) * len(arr[0])
         with sandbox(flip, inp["fs0"]) as root:
             path = fpath(root, inp["p"], inp["abs"])
-            w = call(array_2d_util.numpy_array_2d_to_fits, array_2d=np.array(arr, dtype="float64"), file_path=path,
-                     overwrite=inp["ow"], header_dict=(dict(hd) if hd else None))
+            the_array = np.array(arr, dtype="float64"); the_dict = (dict(hd) if hd else None)
+            w = call(array_2d_util.numpy_array_2d_to_fits, array_2d=the_array, file_path=path,
+                     overwrite=inp["ow"], header_dict=the_dict)
             fsa = snapshot(root)
             r = okmap(call(array_2d_util.numpy_array_2d_via_fits_from, file_path=path, hdu=inp["k"]), lambda a: np.array(a).tolist())
             hr = okmap(call(array_2d_util.header_obj_from, file_path=path, hdu=inp["k"]), pix_cards)
+            if inp.get("again"):     # the caller's ndarray and dict are used for a second write (to another path)
+                path2 = fpath(root, inp["again"], inp["abs"])
+                w2 = call(array_2d_util.numpy_array_2d_to_fits, array_2d=the_array, file_path=path2, overwrite=inp["ow"], header_dict=the_dict)
+                fsa2 = snapshot(root)
+                r2 = okmap(call(array_2d_util.numpy_array_2d_via_fits_from, file_path=path2, hdu=inp["k"]), lambda a: np.array(a).tolist())
+                hr2 = okmap(call(array_2d_util.header_obj_from, file_path=path2, hdu=inp["k"]), pix_cards)
         wx = None if w[0] == "ok" else w[1]
         out = [wx, fsa, r, hr]
         coq = (f"KUtil2 {cbool(flip)} {cfs(inp['fs0'], carr)} {carr(arr)} {cpath(inp['p'])} {cbool(inp['ow'])} {chdr(hd)} {cz(inp['k'])} "
                f"{coexn(wx)} {cfs(fsa, carr)} {cfres(r, carr)} {cfres(hr, chdr)}")
+        if inp.get("again"):
+            wx2 = None if w2[0] == "ok" else w2[1]
+            out += [wx2, fsa2, r2, hr2]
+            extra = [(f"(KBase (KUtil2 {cbool(flip)} {cfs(fsa, carr)} {carr(arr)} {cpath(inp['again'])} {cbool(inp['ow'])} {chdr(hd)} {cz(inp['k'])} "
+                      f"{coexn(wx2)} {cfs(fsa2, carr)} {cfres(r2, carr)} {cfres(hr2, chdr)}))")]
     elif op == "util1":
         arr = inp["arr"]; hd = inp["hd"]; cells = len(arr)
         with sandbox(flip, inp["fs0"]) as root:
             path = fpath(root, inp["p"], inp["abs"])
-            w = call(array_1d_util.numpy_array_1d_to_fits, array_1d=np.array(arr, dtype="float64"), file_path=path,
-                     overwrite=inp["ow"], header_dict=(dict(hd) if hd else None))
+            the_array = np.array(arr, dtype="float64"); the_dict = (dict(hd) if hd else None)
+            w = call(array_1d_util.numpy_array_1d_to_fits, array_1d=the_array, file_path=path,
+                     overwrite=inp["ow"], header_dict=the_dict)
             fsa = snapshot(root)
             r = okmap(call(array_1d_util.numpy_array_1d_via_fits_from, file_path=path, hdu=inp["k"]), lambda a: np.array(a, dtype="float64").tolist())
+            if inp.get("again"):
+                path2 = fpath(root, inp["again"], inp["abs"])
+                w2 = call(array_1d_util.numpy_array_1d_to_fits, array_1d=the_array, file_path=path2, overwrite=inp["ow"], header_dict=the_dict)
+                fsa2 = snapshot(root)
+                r2 = okmap(call(array_1d_util.numpy_array_1d_via_fits_from, file_path=path2, hdu=inp["k"]), lambda a: np.array(a, dtype="float64").tolist())
         wx = None if w[0] == "ok" else w[1]
         out = [wx, fsa, r]
         coq = (f"KUtil1 {cfs(inp['fs0'], crow)} {crow(arr)} {cpath(inp['p'])} {cbool(inp['ow'])} {chdr(hd)} {cz(inp['k'])} "
                f"{coexn(wx)} {cfs(fsa, crow)} {cfres(r, crow)}")
+        if inp.get("again"):
+            wx2 = None if w2[0] == "ok" else w2[1]
+            out += [wx2, fsa2, r2]
+            extra = [(f"(KBase (KUtil1 {cfs(fsa, crow)} {crow(arr)} {cpath(inp['again'])} {cbool(inp['ow'])} {chdr(hd)} {cz(inp['k'])} "
+                      f"{coexn(wx2)} {cfs(fsa2, crow)} {cfres(r2, crow)}))")]
     elif op == "file2":
         vals, mask, sc, kd = inp["vals"], inp["mask"], inp["sc"], inp["kd"]; cells = len(vals) * len(vals[0])
         with sandbox(flip, inp["fs0"]) as root:
@@ -340,11 +398,118 @@ def run_case(inp):
         coq = (f"KImaging {cbool(flip)} {cbarr(mask)} {carr(inp['data'])} {carr(inp['noise'])} {carr(psf)} {csc2(sc)} {cfs(inp['fs0'], carr)} "
                f"{cpath(inp['pd'])} {cpath(inp['pp'])} {cpath(inp['pn'])} {cbool(inp['ow'])} {cbool(inp['chk'])} {coexn(wx)} {cfs(fsa, carr)} "
                f"{cfres(r, lambda t: ctup([carr(t[0]), carr(t[1]), carr(t[2])]))}")
+    elif op in ("hist2", "hist1", "histm2", "histm1"):
+        return run_hist(aa, inp)
     else:
         raise ValueError(op)
-    res = {"coq": "(" + coq + ")", "out": out, "py_ok": None, "nontrivial": cells > 1, "kind": op + (":flip" if flip else "")}
+    res = {"coq": "(KBase (" + coq + "))", "out": out, "py_ok": None, "nontrivial": cells > 1, "kind": op + (":flip" if flip else "")}
     if finding: res["finding"] = finding
+    if extra: res["extra_coq"] = extra
     return res
+
+# ----------------------------------------------------------------------------- histories of one object
+def apply_op(obj, name, c):
+    """the python expression a user writes; c is a python float (a numpy scalar on the left would take numpy's own route)"""
+    if name == "add": return obj + c
+    if name == "radd": return c + obj
+    if name == "sub": return obj - c
+    if name == "rsub": return c - obj
+    if name == "mul": return obj * c
+    if name == "rmul": return c * obj
+    if name == "div": return obj / c
+    if name == "rdiv": return c / obj
+    if name == "neg": return -obj
+    if name == "abs": return abs(obj)
+    raise ValueError(name)
+def apply_bop(obj, other, name):
+    if name == "add": return obj + other
+    if name == "sub": return obj - other
+    if name == "rsub": return other - obj
+    if name == "mul": return obj * other
+    raise ValueError(name)
+
+def run_hist(aa, inp):
+    from autoconf import conf
+    op = inp["op"]; flip = inp["flip"]; sc = inp["sc"]; mask = inp["mask"]; steps = inp["steps"]
+    nbo = bool(inp.get("nbo", False)); sn = bool(inp.get("sn", False))
+    dim2 = op in ("hist2", "histm2")
+    st = conf.instance["general"]["structures"]; old_nbo = st["native_binned_only"]
+    obs = []
+    with sandbox(flip, inp["fs0"]) as root:
+        try:
+            st["native_binned_only"] = nbo
+            if op == "hist2":
+                m = aa.Mask2D(mask=np.array(mask, dtype=bool), pixel_scales=tuple(sc))
+                cls = aa.Kernel2D if inp["kd"] == "kernel" else aa.Array2D
+                obj = cls(values=np.array(inp["vals"], dtype="float64"), mask=m, store_native=sn)
+                peek = lambda o: np.array(o.native, dtype="float64").tolist()
+                rd_hdu = lambda h: okmap(call(cls.from_primary_hdu, primary_hdu=h), lambda o: obs_arr2(o, False))
+                if inp["kd"] == "kernel": rd_file = lambda p, k: okmap(call(cls.from_fits, file_path=p, hdu=k, pixel_scales=tuple(sc)), obs_arr2)
+                else: rd_file = lambda p, k: okmap(call(cls.from_fits, file_path=p, pixel_scales=tuple(sc), hdu=k), obs_arr2)
+            elif op == "hist1":
+                m = aa.Mask1D(mask=np.array(mask, dtype=bool), pixel_scales=float(sc))
+                obj = aa.Array1D(values=np.array(inp["vals"], dtype="float64"), mask=m, store_native=sn)
+                peek = lambda o: np.array(o.native, dtype="float64").tolist()
+                rd_hdu = lambda h: okmap(call(aa.Array1D.from_primary_hdu, primary_hdu=h), lambda o: obs_arr1(o, False))
+                rd_file = lambda p, k: okmap(call(aa.Array1D.from_fits, file_path=p, pixel_scales=float(sc), hdu=k), obs_arr1)
+            elif op == "histm2":
+                obj = aa.Mask2D(mask=np.array(mask, dtype=bool), pixel_scales=tuple(sc))
+                peek = lambda o: np.array(o).astype("float64").tolist()
+                rd_hdu = lambda h: okmap(call(aa.Mask2D.from_primary_hdu, primary_hdu=h), obs_m2)
+                rd_file = lambda p, k: okmap(call(aa.Mask2D.from_fits, file_path=p, pixel_scales=tuple(sc), hdu=k), obs_m2)
+            else:
+                obj = aa.Mask1D(mask=np.array(mask, dtype=bool), pixel_scales=float(sc))
+                peek = lambda o: np.array(o).astype("float64").tolist()
+                rd_hdu = lambda h: okmap(call(aa.Mask1D.from_primary_hdu, primary_hdu=h), obs_m1)
+                rd_file = lambda p, k: okmap(call(aa.Mask1D.from_fits, file_path=p, pixel_scales=float(sc), hdu=k), obs_m1)
+            other = obj
+            for s in steps:
+                t = s[0]
+                try:
+                    if t == "op": obj = apply_op(obj, s[1], float(s[2]) if len(s) > 2 else None)
+                    elif t == "bop": obj = apply_bop(obj, other, s[1])
+                    elif t == "save": other = obj
+                    elif t == "swap": obj, other = other, obj
+                    elif t == "native": obj = obj.native
+                    elif t == "slim": obj = obj.slim
+                    elif t == "copy": obj = obj.copy()
+                    elif t == "set1": obj[int(s[1])] = float(s[2])
+                    elif t == "set2":
+                        if dim2: obj[int(s[1]), int(s[2])] = float(s[3])
+                        else: obj[int(s[2])] = float(s[3])
+                    elif t == "flip": conf.instance["general"]["fits"]["flip_for_ds9"] = bool(s[1])
+                    elif t == "peek": obs.append(["peek", peek(obj)])
+                    elif t == "hdu":
+                        h = obj.hdu_for_output
+                        obs.append(["hdu", raw_of(h), rd_hdu(h)])
+                    elif t == "file":
+                        path = fpath(root, s[1], s[4])
+                        w = call(obj.output_to_fits, file_path=path, overwrite=s[2])
+                        fsa = snapshot(root)
+                        obs.append(["file", None if w[0] == "ok" else w[1], fsa, rd_file(path, s[3])])
+                    else: raise ValueError(t)
+                except ValueError: raise
+                except Exception as e:   # noqa
+                    obs.append(["err", exn_name(e)]); break
+        finally:
+            st["native_binned_only"] = old_nbo
+    csteps = clist([cstep(s) for s in steps])
+    if op == "hist2":
+        cells = len(mask) * len(mask[0])
+        coq = (f"KHist2 {cbool(nbo)} {cbool(flip)} {'KKernel' if inp['kd'] == 'kernel' else 'KArray'} {cbool(sn)} {carr(inp['vals'])} {cbarr(mask)} "
+               f"{csc2(sc)} {cfs(inp['fs0'], carr)} {csteps} {clist([cobsv(o, carr, cobs2) for o in obs])}")
+    elif op == "hist1":
+        cells = len(mask)
+        coq = (f"KHist1 {cbool(flip)} {cbool(sn)} {crow(inp['vals'])} {cbrow(mask)} {cq(fr(sc))} {cfs(inp['fs0'], crow)} {csteps} "
+               f"{clist([cobsv(o, crow, cobs1) for o in obs])}")
+    elif op == "histm2":
+        cells = len(mask) * len(mask[0])
+        coq = f"KHistM2 {cbool(flip)} {cbarr(mask)} {csc2(sc)} {cfs(inp['fs0'], carr)} {csteps} {clist([cobsv(o, carr, cobsm2) for o in obs])}"
+    else:
+        cells = len(mask)
+        coq = f"KHistM1 {cbool(flip)} {cbrow(mask)} {cq(fr(sc))} {cfs(inp['fs0'], crow)} {csteps} {clist([cobsv(o, crow, cobsm1) for o in obs])}"
+    kind = op + (":nbo" if nbo else ":sn" if sn else "") + (":flip" if flip else "")
+    return {"coq": "(" + coq + ")", "out": obs, "py_ok": None, "nontrivial": cells > 1 and len(obs) > 0, "kind": kind}
 
 # ----------------------------------------------------------------------------- generators
 SPECIAL = [2.0 ** -60, -(2.0 ** -60), 5e-324, 2.0 ** 70, -(2.0 ** 70), 1e300, -1e300, 0.1, -0.3, 1e-12, 123456.789]
@@ -407,7 +572,8 @@ def gen_inputs(tier, rng):
                     yield {"op": "hdu2", "flip": flip, "kd": kd, "vals": vals, "mask": mk, "sc": sc}
                 yield {"op": "filem2", "flip": flip, "mask": mask, "sc": sc, "fs0": E, "p": [10], "abs": False, "ow": False, "k": 0, "rs": None, "inv": (h * w) % 2 == 1}
                 yield {"op": "hdum2", "flip": flip, "mask": mask, "sc": sc}
-                yield {"op": "util2", "flip": flip, "fs0": E, "arr": vals, "p": [1, 2, 10], "abs": False, "ow": w % 2 == 0, "hd": [["PIXSCALE", 2.0]] if h % 2 else [], "k": 0}
+                yield {"op": "util2", "flip": flip, "fs0": E, "arr": vals, "p": [1, 2, 10], "abs": False, "ow": w % 2 == 0, "hd": [["PIXSCALE", 2.0]] if h % 2 else [], "k": 0,
+                       "again": [[11], [1, 11], [3, 10]][(h + w) % 3]}
     nmax = 9 if big else 6
     for n in range(1, nmax + 1):
         vals = content1(n); mask = [False] * n
@@ -418,7 +584,7 @@ def gen_inputs(tier, rng):
                 yield {"op": "hdu1", "flip": flip, "vals": vals, "mask": mk, "sc": 0.5}
             yield {"op": "filem1", "flip": flip, "mask": mask, "sc": 2.0, "fs0": E, "p": [10], "abs": False, "ow": False, "k": 0}
             yield {"op": "hdum1", "flip": flip, "mask": mask, "sc": 2.0}
-            yield {"op": "util1", "flip": flip, "fs0": E, "arr": vals, "p": [1, 10], "abs": True, "ow": False, "hd": [["PIXSCALE", 0.25]], "k": 0}
+            yield {"op": "util1", "flip": flip, "fs0": E, "arr": vals, "p": [1, 10], "abs": True, "ow": False, "hd": [["PIXSCALE", 0.25]], "k": 0, "again": [2, 11]}
     # 2. all boolean masks of the small shapes
     lim = 9 if big else 6
     i = 0
@@ -517,3 +683,307 @@ def gen_inputs(tier, rng):
             yield {"op": "file1", "flip": flip, "vals": vals[0], "mask": mask[0], "sc": s, "fs0": fs1, "p": p1, "abs": ab, "ow": ow, "k": 0}
         elif t == 6: yield {"op": "hdu1", "flip": flip, "vals": vals[0], "mask": mask[0], "sc": s}
         else: yield {"op": "file2", "flip": flip, "kd": "kernel", "vals": vals, "mask": falses(h, w), "sc": sc, "fs0": fs0, "p": p, "abs": ab, "ow": ow, "k": 0}
+    # 8. histories of one object (derived arrays, re-used objects, in-place edits): see gen_hist
+    yield from gen_hist(tier, rng)
+
+# ----------------------------------------------------------------------------- generators of histories
+EPS = 2.0 ** -30
+_F = Fraction
+def _sem(name, c):
+    """(float function, exact function) of a scalar operator"""
+    c_ = None if c is None else _F(float(c))
+    return {"add": (lambda v: v + c, lambda q: q + c_), "radd": (lambda v: c + v, lambda q: c_ + q),
+            "sub": (lambda v: v - c, lambda q: q - c_), "rsub": (lambda v: c - v, lambda q: c_ - q),
+            "mul": (lambda v: v * c, lambda q: q * c_), "rmul": (lambda v: c * v, lambda q: c_ * q),
+            "div": (lambda v: v / c, lambda q: q / c_), "rdiv": (lambda v: c / v, lambda q: c_ / q),
+            "neg": (lambda v: -v, lambda q: -q), "abs": (lambda v: abs(v), lambda q: abs(q))}[name]
+_BSEM = {"add": (lambda a, b: a + b), "sub": (lambda a, b: a - b), "rsub": (lambda a, b: b - a), "mul": (lambda a, b: a * b)}
+def _exact1(ff, fq, v):
+    try: r = ff(v)
+    except ZeroDivisionError: return None
+    if r != r or r in (float("inf"), float("-inf")): return None
+    try: return r if _F(r) == fq(_F(v)) else None
+    except ZeroDivisionError: return None
+
+JUNK = "junk"
+def hist_ok(inp):
+    """Generator-side filter: a history is used only if (i) every step fits the way the object is stored at that point and
+    (ii) every floating-point operation it causes is exact and finite on every value that can sit at an UNMASKED position of a
+    buffer (abstract interpretation on the SETS of values at unmasked / masked positions).  At masked positions of a natively
+    stored buffer anything may happen (1.0 / 0.0 = inf, inf - inf = NaN, rounding): these values must never be shown."""
+    op = inp["op"]; mask = inp["mask"]; nbo = bool(inp.get("nbo")); sn = bool(inp.get("sn"))
+    if op in ("histm2", "histm1"):
+        return all(s[0] in ("save", "swap", "copy", "flip", "peek", "hdu", "file", "set2" if op == "histm2" else "set1") for s in inp["steps"])
+    flat_m = [b for r in mask for b in r] if op == "hist2" else list(mask)
+    flat_v = [v for r in inp["vals"] for v in r] if op == "hist2" else list(inp["vals"])
+    n_un = flat_m.count(False)
+    native0 = sn or (nbo and op == "hist2")
+    cur = {"u": {float(v) for v, b in zip(flat_v, flat_m) if not b}, "m": ({0.0} if native0 and n_un < len(flat_m) else (set() if native0 else None)), "st": "native" if native0 else "slim"}
+    reg = cur
+    for s in inp["steps"]:
+        t = s[0]
+        if t == "op":
+            ff, fq = _sem(s[1], float(s[2]) if len(s) > 2 else None)
+            new = {"st": cur["st"], "u": set(), "m": None if cur["m"] is None else set()}
+            for key in ("u", "m"):
+                if cur[key] is None: continue
+                for v in cur[key]:
+                    r = JUNK if v == JUNK else _exact1(ff, fq, v)
+                    if r is None:
+                        if key == "u": return False
+                        r = JUNK          # a masked pixel of the raw buffer: never shown (inf, NaN, a rounded value ... are all junk)
+                    new[key].add(r)
+            cur = new
+        elif t == "bop":
+            if cur["st"] != reg["st"]: return False
+            f = _BSEM[s[1]]
+            new = {"st": cur["st"], "u": set(), "m": None if cur["m"] is None else set()}
+            for key in ("u", "m"):
+                if cur[key] is None: continue
+                for a in cur[key]:
+                    for b in reg[key]:
+                        if a == JUNK or b == JUNK: new[key].add(JUNK); continue
+                        r = f(a, b)
+                        if r != r or abs(r) == float("inf") or _F(r) != f(_F(a), _F(b)):
+                            if key == "u": return False
+                            r = JUNK
+                        new[key].add(r)
+            cur = new
+        elif t == "save": reg = cur
+        elif t == "swap": cur, reg = reg, cur
+        elif t == "copy": cur = {"st": cur["st"], "u": set(cur["u"]), "m": None if cur["m"] is None else set(cur["m"])}
+        elif t == "native": cur = {"st": "native", "u": set(cur["u"]), "m": ({0.0} if n_un < len(flat_m) else set())}
+        elif t == "slim":
+            if nbo and op == "hist2": cur = {"st": "native", "u": set(cur["u"]), "m": ({0.0} if n_un < len(flat_m) else set())}
+            else: cur = {"st": "slim", "u": set(cur["u"]), "m": None}
+        elif t == "set1":
+            if cur["st"] != "slim" and not (op == "hist1" and n_un == len(flat_m)): return False
+            if not (0 <= s[1] < n_un): return False
+            cur["u"].add(float(s[2]))
+        elif t == "set2":
+            if cur["st"] != "native" and not (op == "hist1" and n_un == len(flat_m)): return False
+            if op == "hist2":
+                if not (0 <= s[1] < len(mask) and 0 <= s[2] < len(mask[0])): return False
+                masked = mask[s[1]][s[2]]
+            else:
+                if s[1] != 0 or not (0 <= s[2] < len(mask)): return False
+                masked = mask[s[2]]
+            (cur["m"] if masked and cur["m"] is not None else cur["u"]).add(float(s[3]))
+        elif t in ("flip", "peek", "hdu", "file"): pass
+        else: return False
+    return True
+
+HSHAPES = [(2, 3, [[False, True, False], [True, False, False]]),
+           (3, 2, [[False, False], [True, False], [False, True]]),
+           (1, 4, [[True, False, False, True]]),
+           (4, 1, [[False], [True], [False], [False]]),
+           (3, 3, [[True, False, False], [False, True, False], [False, False, False]]),
+           (2, 2, [[False, False], [False, False]])]
+POW2 = [1.0, -2.0, 4.0, 0.5, 8.0, -0.25, 16.0, -1.0, 2.0]
+def content_zero_ties(h, w):
+    """exact zeros, equal values (ties) and both signs among the cells"""
+    base = [0.0, 3.0, -3.0, 3.0, 0.0, 7.5, -0.5, 7.5, 2.0]
+    return [[base[(y * w + x) % 9] for x in range(w)] for y in range(h)]
+def content_pow2(h, w): return [[POW2[(y * w + x) % 9] for x in range(w)] for y in range(h)]
+
+# derivations: python expressions producing a DERIVED array from the constructed one
+DERIV = [
+    [["op", "add", 5.0]],                                                   # arr + 5.0
+    [["op", "rsub", 100.0]],                                                # 100.0 - arr
+    [["op", "mul", 0.5], ["bop", "rsub"], ["op", "add", EPS]],              # arr - arr * 0.5 + eps
+    [["op", "radd", EPS]],                                                  # eps + arr
+    [["op", "neg"], ["op", "sub", 1.0]],                                    # -arr - 1.0
+    [["op", "abs"], ["op", "rmul", -3.0]],                                  # -3.0 * abs(arr)
+    [["op", "div", 4.0], ["op", "add", 0.25]],                              # arr / 4.0 + 0.25
+    [["op", "add", 2.0], ["native"]],                                       # (arr + 2.0).native
+    [["op", "add", 2.0], ["slim"]],                                         # (arr + 2.0).slim
+    [["native"], ["op", "add", 7.0]],                                       # arr.native + 7.0
+    [["native"], ["op", "rsub", 1.0], ["slim"], ["op", "add", 1.0]],        # (1.0 - arr.native).slim + 1.0
+    [["op", "add", 1.0], ["bop", "mul"]],                                   # (arr + 1.0) * arr
+    [["copy"], ["op", "sub", 0.5]],                                         # arr.copy() - 0.5
+    [["op", "add", 1.0], ["op", "mul", 2.0 ** 990]],                        # huge values, also in the masked pixels of the buffer
+    [["op", "mul", 0.0], ["op", "add", 5e-324]],                            # the smallest double everywhere
+    [["op", "rdiv", 1.0], ["op", "mul", 3.0]],                              # 3.0 * (1.0 / arr)   (powers of two; inf at the masked pixels of a native buffer)
+    [["op", "rdiv", 2.0], ["save"], ["op", "mul", 1.0], ["bop", "sub"], ["op", "add", 1.0]],   # w = 2.0 / arr; w * 1.0 - w + 1.0   (inf - inf = NaN at masked pixels)
+]
+# re-use of ONE object: the same object observed twice, edited in place between two observations, aliased, copied
+def reuse_templates(native):
+    setv = (lambda k, v: ["set2", k[0], k[1], v]) if native else (lambda k, v: ["set1", k[2], v])
+    # k = (y, x, slim index) of an unmasked pixel; km = a masked pixel (native form only)
+    def T(k, km):
+        out = [
+            [["hdu"], ["hdu"], ["peek"]],
+            [["file", [10], False, 0, False], ["file", [1, 11], False, 0, True], ["hdu"]],
+            [["file", [10], False, 0, False], ["op", "add", 1.0], ["file", [10], True, 0, False], ["file", [10], False, -1, False]],
+            [["hdu"], setv(k, -77.5), ["hdu"], ["file", [2, 10], False, 0, False]],
+            [["peek"], setv(k, 0.0), ["peek"], ["hdu"]],
+            [["file", [10], False, 0, True], setv(k, 41.0), ["file", [10], True, 0, True]],
+            [["hdu"], ["flip", None], ["hdu"], ["file", [10], False, 0, False], ["flip", None], ["file", [11], False, 0, False]],
+            [["copy"], setv(k, 9.0), ["hdu"], ["swap"], ["hdu"]],                       # the copy is independent of the original
+            [["save"], setv(k, 6.5), ["swap"], ["hdu"], ["peek"]],                      # an alias is not
+            [["op", "add", 1.0], ["save"], ["op", "mul", 2.0], ["hdu"], ["swap"], ["hdu"], ["swap"], ["file", [10], False, 0, False]],
+            [["native"], ["hdu"], ["slim"], ["hdu"], ["native"], ["file", [1, 10], False, 0, False]],
+        ]
+        if native and km is not None:
+            out.append([["set2", km[0], km[1], 123.0], ["hdu"], ["file", [10], False, 0, False], ["peek"]])   # the user writes INTO a masked pixel
+            out.append([["hdu"], ["set2", km[0], km[1], -1.0], ["op", "add", 1.0], ["hdu"]])
+        return out
+    return T
+
+def pick_pixels(mask, rng=None):
+    """an unmasked pixel (y, x, slim index) and a masked pixel (or None)"""
+    un = []; ms = []; k = 0
+    for y, r in enumerate(mask):
+        for x, b in enumerate(r):
+            if b: ms.append((y, x))
+            else: un.append((y, x, k)); k += 1
+    u = un[len(un) // 2] if rng is None else rng.choice(un)
+    m = (ms[len(ms) // 2] if rng is None else rng.choice(ms)) if ms else None
+    return u, m
+
+def fix_flips(steps, flip):
+    """["flip", None] toggles the flag"""
+    out = []; f = flip
+    for s in steps:
+        if s[0] == "flip" and s[1] is None: f = not f; out.append(["flip", f])
+        else:
+            if s[0] == "flip": f = s[1]
+            out.append(list(s))
+    return out
+
+ROUTES = [["peek"], ["hdu"], ["file", [1, 10], False, 0, False]]
+STORE = [(False, False), (True, False), (False, True)]          # (store_native, native_binned_only)
+
+def gen_hist(tier, rng):
+    big = tier == "thorough"
+    E = {"dirs": [], "files": []}
+    i = 0
+    # H1. every derivation x storage x class, then every write route on the derived object
+    for di, d in enumerate(DERIV):
+        for si, (sn, nbo) in enumerate(STORE):
+            for kd in ("array", "kernel"):
+                for flip in (False, True):
+                    i += 1
+                    shapes = HSHAPES if big else [HSHAPES[(i + j) % 5] for j in range(1)]
+                    for (h, w, mask) in shapes:
+                        rd = any(s[0] == "op" and s[1] == "rdiv" for s in d)
+                        vals = content_pow2(h, w) if rd else (content_zero_ties(h, w) if (i % 3 == 0) else content2(h, w))
+                        steps = [list(s) for s in d] + [list(r) for r in ROUTES]
+                        steps[-1][4] = (i % 2 == 0)
+                        inp = {"op": "hist2", "flip": flip, "nbo": nbo, "sn": sn, "kd": kd, "vals": vals, "mask": mask,
+                               "sc": [[0.5, 0.5], [1.0, 1.0], [0.5, 0.25]][i % 3], "fs0": E, "steps": steps}
+                        if hist_ok(inp): yield inp
+    for di, d in enumerate(DERIV):
+        for sn in (False, True):
+            for flip in (False, True):
+                i += 1
+                n = 3 + i % 4
+                mask = [(j % 3 == 1) for j in range(n)] if i % 5 else [False] * n
+                rd = any(s[0] == "op" and s[1] == "rdiv" for s in d)
+                vals = content_pow2(1, n)[0] if rd else (content_zero_ties(1, n)[0] if i % 3 == 0 else content1(n))
+                steps = [list(s) for s in d] + [list(r) for r in ROUTES]
+                inp = {"op": "hist1", "flip": flip, "sn": sn, "vals": vals, "mask": mask, "sc": [0.5, 2.0, 0.25][i % 3], "fs0": E, "steps": steps}
+                if hist_ok(inp): yield inp
+    # H2. re-use of one object
+    for si, (sn, nbo) in enumerate(STORE):
+        native = sn or nbo
+        for (h, w, mask) in (HSHAPES if big else HSHAPES[:3]):
+            u, m = pick_pixels(mask)
+            for ti, tpl in enumerate(reuse_templates(native)(u, m)):
+                for flip in ((False, True) if big else ((ti + si + h) % 2 == 0,)):
+                    i += 1
+                    inp = {"op": "hist2", "flip": flip, "nbo": nbo, "sn": sn, "kd": "kernel" if i % 4 == 0 else "array", "vals": content2(h, w), "mask": mask,
+                           "sc": [1.0, 1.0] if i % 3 else [2.0, 0.5], "fs0": E, "steps": fix_flips(tpl, flip)}
+                    if hist_ok(inp): yield inp
+    for sn in (False, True):
+        for n, mask in ((4, [False, True, False, False]), (3, [False, False, False]), (5, [True, False, True, False, False])):
+            un = [j for j, b in enumerate(mask) if not b]
+            u = (0, un[len(un) // 2], len(un) // 2); m = (0, mask.index(True)) if True in mask else None
+            for ti, tpl in enumerate(reuse_templates(sn)(u, m)):
+                i += 1
+                flip = i % 2 == 0
+                inp = {"op": "hist1", "flip": flip, "sn": sn, "vals": content1(n), "mask": mask, "sc": 0.5, "fs0": E, "steps": fix_flips(tpl, flip)}
+                if hist_ok(inp): yield inp
+    # H3. masks: written, edited in place, written again; copies and aliases
+    for (h, w, mask) in HSHAPES:
+        for flip in (False, True):
+            u, m = pick_pixels(mask)
+            y2, x2 = (m if m else (0, 0))
+            tpls = [
+                [["hdu"], ["set2", u[0], u[1], 1.0], ["hdu"], ["peek"]],
+                [["file", [10], False, 0, False], ["set2", y2, x2, 0.0], ["file", [10], True, 0, False], ["file", [1, 11], False, -1, True]],
+                [["file", [10], False, 0, False], ["set2", u[0], u[1], 1.0], ["file", [10], False, 0, False], ["hdu"]],
+                [["copy"], ["set2", u[0], u[1], 1.0], ["hdu"], ["swap"], ["hdu"]],
+                [["save"], ["set2", u[0], u[1], 1.0], ["swap"], ["hdu"], ["file", [2, 10], False, 0, False]],
+                [["hdu"], ["flip", None], ["hdu"], ["set2", h - 1, w - 1, 1.0], ["flip", None], ["hdu"], ["file", [10], False, 0, False]],
+            ]
+            for tpl in tpls:
+                i += 1
+                yield {"op": "histm2", "flip": flip, "mask": mask, "sc": [0.5, 0.5] if i % 3 else [1.0, 2.0], "fs0": E, "steps": fix_flips(tpl, flip)}
+    for n, mask in ((4, [False, True, False, False]), (1, [False]), (5, [True, False, True, False, False])):
+        for flip in (False, True):
+            tpls = [
+                [["hdu"], ["set1", n - 1, 1.0], ["hdu"], ["peek"]],
+                [["file", [10], False, 0, False], ["set1", 0, 1.0], ["file", [10], True, 0, False], ["set1", 0, 0.0], ["file", [1, 11], False, -1, True]],
+                [["copy"], ["set1", 0, 1.0], ["hdu"], ["swap"], ["hdu"]],
+                [["save"], ["set1", n // 2, 1.0], ["swap"], ["hdu"], ["file", [2, 10], False, 0, False]],
+            ]
+            for tpl in tpls:
+                yield {"op": "histm1", "flip": flip, "mask": mask, "sc": 0.25, "fs0": E, "steps": fix_flips(tpl, flip)}
+    # H4. random histories
+    scen2 = fs_scenarios(2); scen1 = fs_scenarios(1)
+    consts = [5.0, 100.0, 0.5, 2.0, -3.0, EPS, 1.0, 0.25, -0.5, 4.0, 1024.0]
+    want = 1500 if big else 130
+    made = 0; tries = 0
+    while made < want and tries < want * 30:
+        tries += 1
+        one_d = tries % 4 == 0
+        if one_d:
+            n = rng.randint(1, 7); mask = [rng.random() < 0.35 for _ in range(n)]
+            if all(mask): mask[rng.randrange(n)] = False
+            sn = rng.random() < 0.5; nbo = False
+            vals = rng.choice([content1(n, rng), content_zero_ties(1, n)[0], content_pow2(1, n)[0]])
+            msk2 = [mask]
+        else:
+            h, w = rng.randint(1, 5), rng.randint(1, 5)
+            mask = rand_mask(h, w, rng) if rng.random() < 0.8 else falses(h, w)
+            if all(all(r) for r in mask): mask[rng.randrange(h)][rng.randrange(w)] = False
+            sn, nbo = rng.choice(STORE)
+            vals = rng.choice([content2(h, w, rng), content_zero_ties(h, w), content_pow2(h, w)])
+            msk2 = mask
+        flip = rng.random() < 0.5
+        native = sn or nbo
+        steps = []; files = 0; nobs = 0
+        for _ in range(rng.randint(3, 9)):
+            r = rng.random()
+            u, m = pick_pixels(msk2, rng)
+            if r < 0.30:
+                name = rng.choice(["add", "radd", "sub", "rsub", "mul", "rmul", "div", "neg", "abs", "rdiv"])
+                c = rng.choice([0.5, 2.0, 4.0, 0.25] if name == "div" else consts)
+                steps.append(["op", name] + ([] if name in ("neg", "abs") else [c]))
+            elif r < 0.38: steps.append(["bop", rng.choice(["add", "sub", "rsub", "mul"])])
+            elif r < 0.44: steps.append(["save"])
+            elif r < 0.48: steps.append(["swap"])
+            elif r < 0.54: steps.append(["native"]); native = True
+            elif r < 0.60: steps.append(["slim"]); native = nbo
+            elif r < 0.64: steps.append(["copy"])
+            elif r < 0.74:
+                v = rng.choice([0.0, -7.5, 12.0, 1e-12 * 0 + 2.0 ** -20, 300.0])
+                if native:
+                    px = m if (m is not None and rng.random() < 0.4) else u
+                    steps.append(["set2", px[0], px[1], v])
+                else: steps.append(["set1", u[2], v])
+            elif r < 0.78: steps.append(["flip", None])
+            elif r < 0.84: steps.append(["peek"]); nobs += 1
+            elif r < 0.93: steps.append(["hdu"]); nobs += 1
+            elif files < 2:
+                steps.append(["file", rng.choice([[10], [1, 10], [1, 2, 10], [11]]), rng.random() < 0.5, rng.choice([0, 0, 0, -1, 1]), rng.random() < 0.5]); files += 1; nobs += 1
+        if nobs == 0: steps.append(["hdu"])
+        steps = fix_flips(steps, flip)
+        fs0 = E if rng.random() < 0.6 else rng.choice(scen1 if one_d else scen2)[0]
+        if one_d: inp = {"op": "hist1", "flip": flip, "sn": sn, "vals": vals, "mask": mask, "sc": rng.choice(SCALES), "fs0": fs0, "steps": steps}
+        else:
+            s = rng.choice(SCALES)
+            inp = {"op": "hist2", "flip": flip, "nbo": nbo, "sn": sn, "kd": rng.choice(["array", "kernel"]), "vals": vals, "mask": mask,
+                   "sc": [s, s] if rng.random() < 0.7 else [s, rng.choice(SCALES)], "fs0": fs0, "steps": steps}
+        if hist_ok(inp): made += 1; yield inp
